@@ -10,7 +10,11 @@ import common, gen, configs, tokgrammar
 from common import enc
 
 LEVEL = "proof"
-THEOREMS = ["Mistune.iterRender_shape"]
+THEOREMS = ["Mistune.iterRender_shape",
+            # tight lists: _transform_tight_list never fails on well-shaped tokens, leaves loose lists (and everything nested in them) untouched, and in a tight list
+            # turns exactly the paragraphs that are direct children of items into block_text — nothing else changes; idempotent
+            "Mistune.transform_eq_spec", "Mistune.transform_total", "Mistune.loose_id", "Mistune.tight_pointwise", "Mistune.tight_no_paragraph", "Mistune.tight_types",
+            "Mistune.tight_counts", "Mistune.tightSpec_idem", "Mistune.transform_idem"]
 
 
 def cfgs_for(ctx, big=False):
